@@ -44,28 +44,42 @@ def to_events(trace):
     obs = dict(rels=[], tmo=[], frees={}, finals=[], readys=[])
     cur_h, cur_c = "E", n0
     fw = ["E"] * len(fkinds)
-    attach = {}          # fiber -> [j, stage]  stage: 0 add next, 1 load next, 2 cas next, 3 failed (release/sub next)
+    # one Attach / Consume call in progress per fiber: js = its futures, batch = several futures in one call (marker
+    # B/K), added = the call's Add was seen, st[j] = ld (SetCallback's load next) | cas | ok | failed, subbed = the
+    # call's final Done was seen
+    attach = {}
+    alias = {}           # worker fiber -> waiter it acts as (marker "as k")
+    wfiber = {}          # waiter -> fiber that runs it
     pcb = {}             # producer fiber -> j while its callback runs
     wloads = {}          # waiter -> number of loads of the head so far
     fload = {}           # (fiber, future) -> index in evs of that fiber's latest unclaimed load of the future's word
     began = {}           # sticky waiter -> saw its begin marker
 
     def timed_result(k, start):
+        fib = wfiber.get(k, "W%d" % k)
         for t in toks[start:]:
-            if t == "W%d:!rel %d" % (k, k):
+            if t == "%s:!rel %d" % (fib, k):
                 return "true"
-            if t == "W%d:!tmo %d" % (k, k):
+            if t == "%s:!tmo %d" % (fib, k):
                 return "false"
         raise ValueError("timed waiter %d never returned" % k)
 
+    def glist(js):
+        return "[%s]" % "; ".join(str(j) for j in js)
+
     for idx, tok in enumerate(toks[1:], start=1):
         who, _, rest = tok.partition(":")
-        wk = int(who[1:]) if re.match(r"W\d+$", who) else None
+        wk = int(who[1:]) if re.match(r"W\d+$", who) else alias.get(who)
         if rest.startswith("!"):
             txt = rest[1:]
             a = txt.split()
-            if a[0] == "op" and a[1] in ("A", "C"):
-                attach[who] = [int(a[2]), 0]
+            if a[0] == "op" and a[1] in ("A", "C", "B", "K"):
+                js = [int(x) for x in a[2].split(",")]
+                attach[who] = dict(js=js, batch=a[1] in ("B", "K"), added=False, st={j: "ld" for j in js}, subbed=False)
+            elif a[0] == "as":
+                alias[who] = int(a[1])
+                wfiber[int(a[1])] = who
+                wk = int(a[1])
             elif a[0] == "op" and a[1] == "S":
                 evs.append("EUserSet")
             elif a[0] == "submit":
@@ -98,7 +112,7 @@ def to_events(trace):
                 obs["frees"][j] = obs["frees"].get(j, 0) + 1
                 if who == "P%d" % j:
                     evs.append("EFRelP %d" % j)
-                elif who in attach and attach[who][0] == j:
+                elif who in attach and attach[who]["st"].get(j) == "failed":
                     evs.append("EFRelA %d" % j)
                 else:
                     raise ValueError("state of future %d destroyed by %s" % (j, who))
@@ -125,15 +139,26 @@ def to_events(trace):
             if v < 0:
                 raise ValueError("the counter wrapped below zero: " + tok)
             if op == "fetch_add":
-                if who in attach and attach[who][1] == 0:
-                    evs.append("EFAdd %d %d" % (attach[who][0], v))
-                    attach[who][1] = 1
+                at = attach.get(who)
+                if at is not None and not at["added"]:
+                    # InsertRange: ONE Add for the whole call, before any callback is installed
+                    if v - cur_c != len(at["js"]):
+                        raise ValueError("the Add of an Attach/Consume call for %d futures added %d: %s" % (len(at["js"]), v - cur_c, tok))
+                    evs.append("EFAddN %s %d" % (glist(at["js"]), v) if at["batch"] else "EFAdd %d %d" % (at["js"][0], v))
+                    at["added"] = True
+                elif at is not None and not at["subbed"] and any(x in ("ld", "cas") for x in at["st"].values()):
+                    raise ValueError("a second Add inside one Attach/Consume call: " + tok)
                 else:
                     evs.append("EAdd %d %d" % (v - cur_c, v))
             elif op == "fetch_sub":
-                if who in attach and attach[who][1] == 3:
-                    evs.append("EFSubA %d %d" % (attach[who][0], v))
-                    del attach[who]
+                at = attach.get(who)
+                failed = [j for j in at["js"] if at["st"][j] == "failed"] if at is not None and not at["subbed"] else []
+                if failed and all(x in ("ok", "failed") for x in at["st"].values()):
+                    # the call's final Done(count - wait_count)
+                    if cur_c - v != len(failed):
+                        raise ValueError("the Done of an Attach/Consume call with %d failed futures subtracted %d: %s" % (len(failed), cur_c - v, tok))
+                    evs.append("EFSubN %s %d" % (glist(failed), v) if at["batch"] else "EFSubA %d %d" % (failed[0], v))
+                    at["subbed"] = True
                 elif who in pcb:
                     evs.append("EFSubP %d %d" % (pcb[who], v))
                     del pcb[who]
@@ -178,15 +203,14 @@ def to_events(trace):
                 ok = fw[j] == "E" and val == "C"
                 evs.append("EFCas %d %s" % (j, "true" if ok else "false"))
                 fw[j] = val
-                if who in attach and attach[who][0] == j:
-                    if ok:
-                        del attach[who]
-                    else:
-                        attach[who][1] = 3
+                if who in attach and attach[who]["st"].get(j) == "cas":
+                    attach[who]["st"][j] = "ok" if ok else "failed"
             elif op == "load":
-                if who in attach and attach[who][0] == j and attach[who][1] == 1:
+                if who in attach and attach[who]["st"].get(j) == "ld":
+                    if not attach[who]["added"]:
+                        raise ValueError("SetCallback before the Add of its Attach/Consume call: " + tok)
                     evs.append("EFLd %d %s" % (j, FW[val]))
-                    attach[who][1] = 2 if val == "E" else 3
+                    attach[who]["st"][j] = "cas" if val == "E" else "failed"
                 else:
                     # Ready() (claimed by the marker that follows in this fiber), ~ResultCore's assertion, the final Get
                     fload[(who, j)] = len(evs)
@@ -310,6 +334,26 @@ def plan(ck):
     # spurious failures of the weak CAS inside TryAdd
     for n in ["wg/block_vs_done", "wg/two_waiters"] + ([] if quick else ["ose/two_jobs", "wg/inline_vs_done"]):
         jobs.append(dict(name=n + " weak", args=["--mode", "dfs", "--exact", n, "--weak", "1" if quick else "2"], cfg="F", exhaustive=True))
+    # one Attach / Consume call for several futures racing their producers (variadic and iterator forms; WaitGroup<0> with
+    # the calling thread waiting afterwards, WaitGroup<0> with a concurrent waiter, WaitGroup<1> with the caller's own
+    # unit); preemption-bounded except for the first one in the thorough tier
+    def batch(n, pb):
+        args = ["--mode", "dfs", "--exact", n] + (["--pb", str(pb)] if pb else [])
+        jobs.append(dict(name=n + (" pb%d" % pb if pb else ""), args=args, cfg="F", exhaustive=not pb))
+    if quick:
+        batch("wg/batch_attach_seq", 3)
+        batch("wg/batch_consume_seq", 2)
+        batch("wg/batch_attach_it_timed/dl=20", 2)
+        batch("wg/batch_consume_var_conc", 2)
+        batch("wg/batch_attach_held", 2)
+    else:
+        batch("wg/batch_attach_seq", 0)
+        batch("wg/batch_consume_seq", 3)
+        for dl in (10, 20, 50):
+            batch("wg/batch_attach_it_timed/dl=%d" % dl, 3)
+        batch("wg/batch_consume_var_conc", 2)
+        batch("wg/batch_attach_held", 2)
+        batch("wg/batch3_consume_seq", 2)
     # seeded random: 3 workers + 3 waiters of mixed kinds (+ futures)
     mixes, walks = (12, 400) if quick else (40, 1000)
     jobs.append(dict(name="mix", args=["--mode", "random", "--only", "mix/", "--max", str(walks), "--seed", str(ck.seed),
@@ -326,7 +370,7 @@ def plan(ck):
     # operation and once more with the switch after it (a fiber stopped right after its CAS / exchange / fetch_sub, before
     # the plain code that follows); random walks offer both.  Quick tier: the after-pass skips the two secondary deadlines
     # of the timed race (the same code path as wg/timed_vs_done/dl=10, which has it).
-    quick_skip_after = ("wg/timed_vs_done/dl=30", "wg/until_vs_done/dl=20")
+    quick_skip_after = ("wg/timed_vs_done/dl=30", "wg/until_vs_done/dl=20", "wg/batch_consume_var_conc pb2", "wg/batch_attach_held pb2")
     out = []
     for j in jobs:
         if "dfs" in j["args"]:
@@ -377,6 +421,7 @@ def main(ck):
                                     replay=dict(harness="h_c16", config=j["cfg"], only=only, choices=m.group(2) if m else None,
                                                 params=[a for a in j["args"] if a.startswith(("mixes=", "pseed="))],
                                                 weak=("--weak" in j["args"]) and j["args"][j["args"].index("--weak") + 1],
+                                                pb=("--pb" in j["args"]) and j["args"][j["args"].index("--pb") + 1],
                                                 yield_at=j["ya"])))
             for r in rows:
                 r["_job"] = j
@@ -403,6 +448,7 @@ def main(ck):
                                 replay=dict(harness="h_c16", config=t["_job"]["cfg"], scenario=t["scenario"], choices=t["choices"],
                                             params=[a for a in t["_job"]["args"] if a.startswith(("mixes=", "pseed="))],
                                             weak=("--weak" in t["_job"]["args"]) and t["_job"]["args"][t["_job"]["args"].index("--weak") + 1],
+                                            pb=("--pb" in t["_job"]["args"]) and t["_job"]["args"][t["_job"]["args"].index("--pb") + 1],
                                             yield_at=t["_job"]["ya"], trace=t["trace"])))
     # ---- correspondence: replay every distinct trace through the model inside Coq
     cases, metas, seen = [], [], {}
@@ -453,7 +499,8 @@ def main(ck):
                       "mutex/condvar operation and, in a second pass, after each one; next fiber, notified waiter; optionally spurious "
                       "weak-CAS failures; random walks offer the switch at both places) for the small programs "
                       "(one waiter of each kind registering vs the final Done / Set, a timed waiter vs two Done fibers for several "
-                      "deadlines, two concurrent pushers, Attach / Consume vs the producer), seeded random walks for 3 workers + 3 "
+                      "deadlines, two concurrent pushers, Attach / Consume vs the producer; one Attach / Consume call for 2-3 futures "
+                      "vs their producers, preemption-bounded DFS except one exhaustive case in the thorough tier), seeded random walks for 3 workers + 3 "
                       "waiters of mixed kinds + up to 2 futures; traces are deduplicated by their sequence of operations on the head "
                       "word, the counter, the futures' words, the waiters' mutex/refcount plus harness markers; non-trivial = a "
                       "waiter's head operation falls between the count reaching zero and the all-done exchange, or two fibers' head "
@@ -484,6 +531,8 @@ def replay(ck, path):
         args += ["--param", p]
     if rp.get("weak"):
         args += ["--weak", str(rp["weak"])]
+    if rp.get("pb"):
+        args += ["--pb", str(rp["pb"])]
     args += ["--yield-at", rp.get("yield_at") or "before"]
     rows, out, err, rc = runner.run_harness(exe, args)
     print(out)
